@@ -214,6 +214,21 @@ def _gir_loop1(v):
     yield "share-proportional-to-weight", implies(both(i > 0, hp > 0), both(-wp <= d, d <= wp))
 
 
+def reads_only(target, allowed):
+    """Static check backing `deterministic_reads`: the body of `target` reads no attribute of `self` other than
+    `allowed` (properties over the contents list) and calls no method of `self` outside `allowed`."""
+    import ast
+
+    from pyvc import source as SRC
+
+    node = SRC.resolve(target).node
+    selfname = node.args.args[0].arg
+    seen = {n.attr for n in ast.walk(node) if isinstance(n, ast.Attribute) and isinstance(n.value, ast.Name) and n.value.id == selfname}
+    stores = {n.attr for n in ast.walk(node) if isinstance(n, ast.Attribute) and isinstance(n.value, ast.Name) and n.value.id == selfname and isinstance(n.ctx, (ast.Store, ast.Del))}
+    extra = sorted(seen - set(allowed))
+    return ("reads-only-" + "-".join(sorted(allowed)), not extra and not stores, f"self attributes used: {sorted(seen)}; written: {sorted(stores)}")
+
+
 def psum_of(seq, k):
     """Sum of the first k elements of a list value (concrete or symbolic)."""
     return Q.to_sseq(seq).psum(k)
@@ -255,6 +270,8 @@ class pile_get_item_rows:
     raises = (_pile.PileError,)
     # normal return <=> a positive weight (box): `had-a-weighted-item` / `only-without-a-positive-weight` below
     raises_iff = {_pile.PileError: lambda s, a: both(len(a.size) == 2, WT(n_items(s)) <= 0)}
+    deterministic_reads = ("_contents",)
+    static_checks = [lambda: reads_only(PI + "Pile.get_item_rows", {"contents", "focus"})]
 
     def requires(s, a):
         return both(pile_wf(s), pile_size_ok(a.size))
